@@ -1053,7 +1053,7 @@ class RZILTransformer(Transformer):
         if hybrid.value_type.group & VTGroup.VOID:
             return hybrid
 
-        tmp_x_name = f"h_tmp{self.il_ops_holder.hybrid_op_count}"
+        tmp_x_name = f"h_tmp{self.il_ops_holder.hybrid_tmp_prefix}{self.il_ops_holder.hybrid_op_count}"
         self.il_ops_holder.hybrid_op_count += 1
         if hybrid.seq_order == HybridSeqOrder.EXEC_ONLY:
             # Doesn't return anything. So no LocalVar for the return value has to be initialized.
